@@ -811,6 +811,10 @@ def _deserialize_graph(
                 i,
             )
             continue
+        # Decode the element type and the shape of every initializer here, so that an invalid
+        # tensor is rejected now and not only when the model is serialized and loaded again
+        tensor_type = _core.TensorType(tensor.dtype)
+        tensor_shape = tensor.shape
         if initializer_name in values:
             # The initializer is for an input
             initializer_value = values[initializer_name]
@@ -824,8 +828,8 @@ def _deserialize_graph(
                 # Include shape and type for all initializers (both top-level and nested graphs)
                 # even if the shape or type is not provided as ValueInfoProto.
                 # Users expect initialized values to have shape and type information.
-                type=_core.TensorType(tensor.dtype),
-                shape=tensor.shape,  # type: ignore[arg-type]
+                type=tensor_type,
+                shape=tensor_shape,  # type: ignore[arg-type]
                 const_value=tensor,
             )
             if initializer_name in value_info:
@@ -833,9 +837,9 @@ def _deserialize_graph(
                 # An (invalid) ValueInfoProto without type or shape must not erase what
                 # the tensor itself tells us about the initializer
                 if initializer_value.type is None:
-                    initializer_value.type = _core.TensorType(tensor.dtype)
+                    initializer_value.type = tensor_type
                 if initializer_value.shape is None:
-                    initializer_value.shape = tensor.shape  # type: ignore[assignment]
+                    initializer_value.shape = tensor_shape  # type: ignore[assignment]
             if initializer_value.name in quantization_annotations:
                 _deserialize_quantization_annotation(
                     quantization_annotations[initializer_value.name], initializer_value
